@@ -140,6 +140,17 @@ theorem C04_vcd_block_roundtrip (c : Codec) (signals : Array SigEnc) (i : Nat) (
                 entries := (replayAbs bits s.maxStates (absolutise 0 cs) {}).entriesRev.reverse }) :=
   vcd_block_roundtrip c signals i s bits tt t0 calls hb hne hw hs hsorted hsmall hlen
 
+/-- **values come back**: every entry the loader builds for a signal written through the VCD vector path decodes to the kind and the
+`bits` symbols of the token it was written from (left extension included), whatever the widest kind of the signal -/
+theorem C04_vcd_block_values (bits : Nat) (hb2 : 2 ≤ bits) (calls : List (Nat × List Nat)) (s : SigEnc)
+    (hw : vcdWrites { tpe := .bitvec bits } calls = some s) :
+    ∃ cs : List (Nat × States × List Nat),
+      s.dataBytes = encStream cs ∧ cs.map (·.1) = deltasFrom 0 (calls.map (·.1)) ∧
+      ∀ x ∈ cs, ∃ nums d, nums.length = bits ∧ x.2.2 = writeNState x.2.1 nums none ∧
+        decodeEntry s.maxStates bits (getLenAndMeta s.maxStates bits).2 (alignEntry s.maxStates x.2.1 bits x.2.2) = some (x.2.1, d) ∧
+        toSyms x.2.1 d bits = nums :=
+  vcd_block_values bits hb2 calls s hw
+
 /-- the stream the theorems are about is what the encoder appends: `add_n_bit_change` on a multi-bit signal -/
 theorem C04_encoder_chunk (ti : Nat) (value : List Nat) (st : States) (s s' : SigEnc) (bits : Nat)
     (ht : s.tpe = .bitvec bits) (hb : bits ≠ 1) (h : addNBit ti value st s = some s') :
